@@ -443,3 +443,46 @@ hash buckes bitmap:
 +--------+-------+-------------+-----------------------------------+
 ```
 */
+
+#[cfg(abyssiniandb_verif)]
+pub mod verif_probe {
+    //! verification hooks: thin wrappers that *call* the private items of this file.
+    use super::*;
+    pub const HEADER_SZ: u64 = HTX_HEADER_SZ;
+    pub fn var_file(buf: rabuf::BufFile) -> VarFile {
+        VarFile::verif_from_buf(PieceMgr::new(&HTX_SIZE_FREE_OFFSET, &HTX_SIZE_ARY), buf)
+    }
+    pub fn htx_file(file: VarFile, buckets_size: u64) -> HtxFile {
+        let mut c = VarFileHtxCache::new(file);
+        c.buckets_size = buckets_size;
+        HtxFile(Rc::new(RefCell::new(c)))
+    }
+    pub fn with_var_file<R>(h: &HtxFile, f: impl FnOnce(&mut VarFile) -> R) -> R {
+        let mut l = h.0.borrow_mut();
+        f(&mut l.file)
+    }
+    pub fn cached_buckets_size(h: &HtxFile) -> u64 {
+        h.0.borrow().buckets_size
+    }
+    pub fn capacity_to_buckets_size(cap: u64) -> u64 {
+        super::capacity_to_buckets_size(cap)
+    }
+    pub fn write_key_piece_offset(f: &mut VarFile, n: u64, idx: u64, off: u64) -> Result<()> {
+        f.write_key_piece_offset(n, idx, KeyPieceOffset::new(off))
+    }
+    pub fn read_item_count(f: &mut VarFile) -> Result<u64> {
+        f.read_item_count()
+    }
+    pub fn write_item_count(f: &mut VarFile, v: u64) -> Result<()> {
+        f.write_item_count(v)
+    }
+    pub fn read_hash_buckets_size(f: &mut VarFile) -> Result<u64> {
+        f.read_hash_buckets_size()
+    }
+    pub fn write_init_header(f: &mut VarFile, sig2: [u8; 8], n: u64) -> Result<()> {
+        write_htxf_init_header(f, sig2, n)
+    }
+    pub fn check_header(f: &mut VarFile, sig2: [u8; 8]) -> Result<()> {
+        check_htxf_header(f, sig2)
+    }
+}
